@@ -1,20 +1,23 @@
-"""development driver: verify contracts whose key matches a substring"""
+"""development driver: verify contracts whose id matches a substring; prints per-obligation timing with -t"""
 import sys, time, importlib
 import z3
 from pyvc.engine import Engine
 from pyvc.contract import Registry
-from pyvc.discharge import discharge
+from pyvc import discharge as D
 from pyvc.core import Unsupported
 
 
 def main():
     repo = '/repo'
     pat = sys.argv[1] if len(sys.argv) > 1 else ''
-    mods = sys.argv[2].split(',') if len(sys.argv) > 2 else ['c_node']
-    R = Registry()
-    for m in mods:
+    import contracts
+    R = Registry(); R.tasks = []
+    for m in contracts.ALL:
         importlib.import_module('contracts.' + m).register(R)
     eng = Engine(repo, R)
+    verbose = '-t' in sys.argv
+    if '-q' in sys.argv:
+        D.RLIMIT_QUICK = 2_000_000
     for c in R.all():
         if pat not in c.id or c.assume_only:
             continue
@@ -24,18 +27,18 @@ def main():
         except Unsupported as e:
             print(f'UNSUPPORTED {c.id}: {e}')
             continue
+        print(f'{c.id}: paths={len(res["paths"])} obls={len(res["obls"])} gen={res["gen_s"]:.2f}s', flush=True)
         st = {}
         bad = []
         for o in res['obls']:
-            d = discharge(o)
+            t1 = time.time()
+            d = D.discharge(o)
             st[d['status']] = st.get(d['status'], 0) + 1
-            if d['status'] != 'proved':
-                bad.append((o, d))
-        print(f'{c.id}: paths={len(res["paths"])} obls={len(res["obls"])} {st} gen={res["gen_s"]:.2f}s total={time.time()-t0:.2f}s')
-        for o, d in bad[:6]:
-            print('   ', d['status'], o.name, 'path', o.path_id)
-            if d['model'] is not None and '-v' in sys.argv:
+            if verbose or d['status'] != 'proved':
+                print(f'   {d["status"]:8s} {time.time()-t1:6.2f}s {o.name} path={o.path_id} {d.get("sliced","")}', flush=True)
+            if d['status'] != 'proved' and d['model'] is not None and '-v' in sys.argv:
                 print('      model:', str(d['model'])[:1500])
+        print(f'   => {st} total={time.time()-t0:.2f}s', flush=True)
 
 
 if __name__ == '__main__':
